@@ -13,7 +13,7 @@ import (
 
 func init() {
 	Register(&Prop{
-		ID: "C09", Bubble: true, ArmLockProbes: true, Run: runC09, QuickRuns: 1500,
+		ID: "C09", Bubble: true, ArmLockProbes: true, Run: runC09, QuickRuns: 5000,
 		ExpectedProbes: []string{"window_closed", "drop_inside_window_not_last"},
 		Rule: "one run = (1) a DefaultLimiter (simple strategy, large limit) over a recording limit delegate on the virtual clock: a seeded sequence of acquire / sleep / complete(outcome) with several tokens outstanding, window size 10..14, window period 1 ms..2 s, threshold 0..1 ms, durations 0 / below / at / above the threshold, drops at every window position, ignored completions, idle gaps; or (2) a WindowedLimit driven directly with (startTime, rtt, in-flight, drop) incl. clock jumps; " +
 			"oracle: a reference window model written from the statement predicts every call of the delegate (no missing, no extra call) and its exact arguments (min / mean rtt, max in-flight, drop flag iff some completion of that window was a drop); " +
